@@ -3,10 +3,34 @@
    connection reconcilers, one invocation = an ordered effect list, a step executes any PREFIX of it, so every
    theorem below quantifies over all change sets, all verdicts and device answers (oracle), all interleavings of
    whole and partial reconcile invocations, and every crash point between two persisted effects).
-   The theorems hold for EVERY pure layer (how values are merged is a parameter of the model). *)
+   The theorems hold for EVERY pure layer (how values are merged is a parameter of the model).
+
+   How the theorems decide the property.  The request's share for target t is proposal (t, i) of transaction i.
+   - C01_values_only_by_commit: the stored configuration of a target (c_values, what Get returns) is altered by one
+     kind of step only: the Commit of a proposal that is in its Commit phase (COMMITTING, no Apply, no Abort) on top
+     of its predecessor, and the new values are exactly commit_merge of the snapshot - for all worlds, no hypothesis.
+   - C01_phase_order, C01_agreement, C01_no_mixed: a proposal is in Commit only after its own validation is done and
+     only if its transaction is in Commit, which needs the transaction's Validate phase done, which means EVERY
+     listed proposal exists and is validated; Commit and Abort never coexist in one transaction.
+   - C01_reject_never_commits: if the model of any one target rejects its share (p_validate = FAILED) then no
+     proposal of that transaction has a Commit phase, in that world and in every later world (any continuation
+     [ls], crashes included); hence by C01_values_only_by_commit no named target's configuration is ever altered
+     by it (C05_rejected_never_alters states the combination); once the transaction reconciler has looked
+     (t_validate = FAILED) the transaction is FAILED with the failure of a failed proposal and is in its Abort phase.
+   - C01_all_or_none_at_fixpoint: when no reconciler has anything left to do (idle), every transaction has either
+     all listed proposals COMMITTED or no proposal with a Commit phase at all.
+   - C01_forward (monotonicity of every step): the proposal list of a transaction, once set, never changes; the
+     details of a proposal and the targets of a transaction never change; phases only move forward
+     (absent -> in progress -> done / failed, never back); records and configurations are never deleted.
+   What remains partial: "contains all of that request's changes" as a statement about the merged VALUES
+   (values = fold of commit_merge along the per-target chain) is the values_fold invariant of C02/C03, not proved
+   here; a committing proposal whose configuration's Committed.Index is not its PrevIndex is marked COMMITTED
+   without a merge by the code (reconcileCommit) - that this never happens for a validated proposal needs the
+   cursor invariant (cursor_wf), which is not part of this file.  The answer to the caller (SetResponse) is C08. *)
 From stdpp Require Import gmap.
+From RecordUpdate Require Import RecordUpdate.
 From Coq Require Import NArith.
-From OC Require Import Model.Proto2 Proofs.P2Base Proofs.P2Phases.
+From OC Require Import Model.Proto2 Proofs.P2Base Proofs.P2Phases Proofs.P2_Order Proofs.P2_OrderStep.
 Open Scope N_scope.
 
 Section C01.
@@ -19,6 +43,10 @@ Section C01.
           (dev_apply : D -> Req -> D) (stamp : N -> Ch -> Ch) (v_empty : V) (d_empty : D) (ch_empty : Ch).
   Notation reach := (@reach V Ch Req D candidate candidate_rb rollback_of overlay commit_merge payload record_applied
                             touched restore resync_payload doc_ok dev_apply stamp v_empty d_empty ch_empty).
+  Notation step := (@step V Ch Req D candidate candidate_rb rollback_of overlay commit_merge payload record_applied
+                          touched restore resync_payload doc_ok dev_apply stamp v_empty d_empty ch_empty).
+  Notation reconcile := (@reconcile V Ch Req D candidate candidate_rb rollback_of overlay commit_merge payload record_applied
+                                    touched restore resync_payload doc_ok stamp v_empty d_empty ch_empty).
 
   (* in every reachable world no transaction has one proposal in its Commit phase and another in its Abort phase *)
   Theorem C01_no_mixed : forall (w : @world V Ch Req D) i t t' (P Q : @prop Ch),
@@ -26,5 +54,73 @@ Section C01.
     ~ (is_Some (p_commit P) /\ is_Some (p_abort Q)).
   Proof. exact (no_mixed_commit_abort candidate candidate_rb rollback_of overlay commit_merge payload record_applied touched restore
                   resync_payload doc_ok dev_apply stamp v_empty d_empty ch_empty). Qed.
+
+  (* the phases of a proposal are ordered *)
+  Theorem C01_phase_order : forall (w : @world V Ch Req D) k (P : @prop Ch),
+    reach w -> props w !! k = Some P ->
+    (is_Some (p_validate P) -> p_init P = Some Done) /\
+    (is_Some (p_commit P) -> p_validate P = Some Done) /\
+    (is_Some (p_apply P) -> p_commit P = Some Done) /\
+    (is_Some (p_abort P) -> p_commit P = None /\ p_apply P = None) /\
+    p_commit P <> Some Failed /\ p_abort P <> Some Failed /\
+    (p_validate P = Some Failed -> is_Some (p_vfail P)).
+  Proof. exact (proposal_phase_order candidate candidate_rb rollback_of overlay commit_merge payload record_applied touched restore
+                  resync_payload doc_ok dev_apply stamp v_empty d_empty ch_empty). Qed.
+
+  (* a phase that is done on a transaction is done on every proposal it lists, and every listed proposal exists *)
+  Theorem C01_agreement : forall (w : @world V Ch Req D) i (T : @txn Ch) tg t,
+    reach w -> txs w !! i = Some T -> t_props T = Some tg -> In t tg ->
+    exists P, props w !! (t, i) = Some P /\
+      (t_init T = Some Done -> p_init P = Some Done) /\
+      (t_validate T = Some Done -> p_validate P = Some Done) /\
+      (t_commit T = Some Done -> p_commit P = Some Done) /\
+      (t_apply T = Some Done -> p_apply P = Some Done) /\
+      (t_abort T = Some Done -> p_abort P = Some Done).
+  Proof. exact (tx_prop_agreement candidate candidate_rb rollback_of overlay commit_merge payload record_applied touched restore
+                  resync_payload doc_ok dev_apply stamp v_empty d_empty ch_empty). Qed.
+
+  (* every step moves every record forward ([mono], Proofs/P2_Order.v: proposal list, details and targets kept,
+     every phase forward in the order absent < in progress < done / failed, nothing deleted) *)
+  Theorem C01_forward : forall (w : @world V Ch Req D) l, reach w -> mono w (step w l).
+  Proof. exact (step_mono candidate candidate_rb rollback_of overlay commit_merge payload record_applied touched restore
+                  resync_payload doc_ok dev_apply stamp v_empty d_empty ch_empty). Qed.
+
+  (* a rejected share: no proposal of the transaction ever has a Commit phase, whatever happens afterwards *)
+  Theorem C01_reject_never_commits : forall (w : @world V Ch Req D) t i (P : @prop Ch) (ls : list (@label Ch)),
+    reach w -> props w !! (t, i) = Some P -> p_validate P = Some Failed ->
+    let w' := fold_left step ls w in
+    (forall t' Q, props w' !! (t', i) = Some Q -> p_commit Q = None) /\
+    (forall T, txs w' !! i = Some T ->
+       t_commit T = None /\
+       (t_validate T = Some Failed ->
+          t_state T = TFailed /\ is_Some (t_abort T) /\
+          exists t0 P0, props w' !! (t0, i) = Some P0 /\ p_validate P0 = Some Failed /\
+                        t_failure T = p_vfail P0 /\ is_Some (p_vfail P0))).
+  Proof. exact (reject_never_commits candidate candidate_rb rollback_of overlay commit_merge payload record_applied touched restore
+                  resync_payload doc_ok dev_apply stamp v_empty d_empty ch_empty). Qed.
+
+  (* single step, no hypothesis on the world: committed values change only by the commit of a committing proposal *)
+  Theorem C01_values_only_by_commit : forall (w : @world V Ch Req D) l t (C C' : @config V),
+    cfgs w !! t = Some C -> cfgs (step w l) !! t = Some C' -> c_values C' <> c_values C ->
+    exists i n o (P : @prop Ch), l = LRec (CtlProp (t, i)) n o /\ props w !! (t, i) = Some P /\
+      p_commit P = Some Doing /\ p_apply P = None /\ p_abort P = None /\ c_committed C = p_prev P /\ (0 < n)%nat /\
+      c_values C' = commit_merge (o_order o) i (c_values C) (view overlay C) (rb_change ch_empty P).
+  Proof. exact (values_only_by_commit candidate candidate_rb rollback_of overlay commit_merge payload record_applied touched restore
+                  resync_payload doc_ok dev_apply stamp v_empty d_empty ch_empty). Qed.
+
+  (* idle system: all listed proposals committed, or none in Commit *)
+  Theorem C01_all_or_none_at_fixpoint : forall (w : @world V Ch Req D),
+    reach w -> (forall c o, fst (reconcile o w c) = []) ->
+    forall i (T : @txn Ch), txs w !! i = Some T ->
+      (forall t, In t (default [] (t_props T)) -> exists P, props w !! (t, i) = Some P /\ p_commit P = Some Done) \/
+      (forall t P, props w !! (t, i) = Some P -> p_commit P = None).
+  Proof. exact (all_or_none_at_fixpoint candidate candidate_rb rollback_of overlay commit_merge payload record_applied touched restore
+                  resync_payload doc_ok dev_apply stamp v_empty d_empty ch_empty). Qed.
 End C01.
 Print Assumptions C01_no_mixed.
+Print Assumptions C01_phase_order.
+Print Assumptions C01_agreement.
+Print Assumptions C01_forward.
+Print Assumptions C01_reject_never_commits.
+Print Assumptions C01_values_only_by_commit.
+Print Assumptions C01_all_or_none_at_fixpoint.
